@@ -5,7 +5,7 @@ import ast
 from fractions import Fraction
 from typing import Dict, List, Optional, Set, Tuple
 
-from ..cfg import CFG, Node, explore, refine, walk_node
+from ..cfg import CFG, Node, explore, refine, resolve_at, walk_node
 from ..domains import LevelTracker
 from ..model import AnalysisError, FuncInfo, Repo, call_np, dotted, method_call, src, walk_no_nested
 from ..report import Ob, bad, ok, skip
@@ -20,6 +20,18 @@ def _linear(e: ast.AST, syms: Dict[str, str]) -> Optional[Dict[str, Fraction]]:
     t = src(e)
     if t in syms:
         return {syms[t]: Fraction(1)}
+    if isinstance(e, ast.Name) and e.id in syms.get("@defs", {}) and e.id not in syms.get("@busy", set()):
+        # a once-bound local (`missing = new_dimensions - self.dimensions`) stands for its definition
+        busy = syms.setdefault("@busy", set())
+        busy.add(e.id)
+        try:
+            return _linear(syms["@defs"][e.id], syms)
+        finally:
+            busy.discard(e.id)
+    if isinstance(e, ast.Call) and (dotted(e.func) or "").split(".")[-1] in ("num_quanta_vector", "num_quanta_matrix"):
+        return {"nq": Fraction(1)}           # the highest occupied level, read in place
+    if isinstance(e, ast.Attribute) and e.attr == "_num_quanta":
+        return {"nq": Fraction(1)}
     if isinstance(e, ast.Constant) and isinstance(e.value, int) and not isinstance(e.value, bool):
         return {"1": Fraction(e.value)}
     if isinstance(e, ast.Call) and isinstance(e.func, ast.Name) and e.func.id == "int" and len(e.args) == 1:
@@ -138,6 +150,8 @@ def resize(repo: Repo) -> List[Ob]:
         if fi.cls is not None and fi.cls.name == "Fock":
             syms["self.state"] = "nq"       # the label *is* the highest occupied level
             syms["self._num_quanta"] = "nq"
+        from ..model import single_defs
+        syms["@defs"] = {k_: v_ for k_, v_ in single_defs(fn).items() if k_ not in syms}
         cfg = CFG(fn)
         lt = LevelTracker(["self"], {"self": frozenset({0})} if label_only else ({"self": frozenset({1, 2})} if not (fi.cls is not None and fi.cls.name == "Fock") else {}))
 
@@ -164,7 +178,9 @@ def resize(repo: Repo) -> List[Ob]:
                     if isinstance(t, ast.Attribute) and t.attr in ("dimensions", "_dimensions"):
                         dw = True
             if s.kind in ("test", "assert") and lab in ("T", "F"):
-                return refine(s.ast, lab == "T", (safe, grow, sw, dw, lv), atom)
+                # locals are read through their (unique) reaching definition at this test; the symbols of the linear forms are kept
+                test = resolve_at(cfg, s, s.ast, keep={k_ for k_ in syms if not k_.startswith("@")})
+                return refine(test, lab == "T", (safe, grow, sw, dw, lv), atom)
             lv2 = lt.exec_node(s, lv) if s.kind == "stmt" else lv
             return [(safe, grow, sw, dw, lv2)]
 
